@@ -14,7 +14,7 @@ import (
 
 // C16 — phasing: one correctly framed result per sequence for any thread count and schedule.
 //
-// Part "orf":   Sequence.LongestORF / SeqBag.LongestORF against a brute-force scan, all short sequences.
+// Part "orf":   Sequence.LongestORF / SeqBag.LongestORF against a brute-force scan, all short sequences and all short codon-token strings.
 // Part "phase": Phase on a structured corpus (ORF embedded with flanks / substitutions / reverse
 //               complement, plus a sequence with no similarity), every option combination, per-result oracle.
 // Part "sched": every interleaving of producer, workers, closer and consumer inside a preemption
@@ -25,6 +25,7 @@ type c16Case struct {
 	Kind      string      `json:"kind"` // orf | bagorf | phase | sched
 	Seqs      []string    `json:"seqs"`
 	Orf       string      `json:"orf,omitempty"` // "" = none supplied
+	Orfs      []string    `json:"orfs,omitempty"` // several reference ORFs, in this order (instead of Orf)
 	Translate bool        `json:"translate,omitempty"`
 	Reverse   bool        `json:"reverse,omitempty"`
 	CutEnd    bool        `json:"cutend,omitempty"`
@@ -231,6 +232,13 @@ func c16Run(cs c16Case) c16Out {
 		o.AddSequence("orf", cs.Orf, "")
 		o.AutoAlphabet()
 		orfs = o
+	} else if len(cs.Orfs) > 0 {
+		o := align.NewSeqBag(align.UNKNOWN)
+		for k, r := range cs.Orfs {
+			o.AddSequence(fmt.Sprintf("orf%d", k), r, "")
+		}
+		o.AutoAlphabet()
+		orfs = o
 	}
 	ch, err := c16Phaser(cs).Phase(orfs, seqs)
 	if err != nil {
@@ -269,7 +277,7 @@ func c16CheckPhase(c *mc.Ctx, cs c16Case) {
 func c16Oracle(c *mc.Ctx, cs c16Case, out c16Out, viol func(clause, desc string)) bool {
 	if out.err != nil {
 		// Phase refused as a whole (e.g. no ORF found anywhere): an explicit error
-		if cs.Orf == "" {
+		if cs.Orf == "" && len(cs.Orfs) == 0 {
 			maxlen := 0
 			for _, s := range cs.Seqs {
 				maxlen = max(maxlen, c16LongestLen(s))
@@ -353,6 +361,43 @@ func c16Oracle(c *mc.Ctx, cs c16Case, out c16Out, viol func(clause, desc string)
 			viol("aa-not-translation-of-codons", fmt.Sprintf("sequence %d: CodonSeq %q translates to %q, AaSeq is %q", i, r.Codon, want, r.Aa))
 			return false
 		}
+		// several references: a sequence that contains exactly one of them verbatim, exactly once, and
+		// none of the others on any allowed strand, is trimmed at that ORF's start; its codon sequence,
+		// being in frame, then begins with that ORF's codons
+		if len(cs.Orfs) > 0 {
+			hits, hitRef := 0, ""
+			for _, ref := range cs.Orfs {
+				n := c16CountOverlapping(in, ref)
+				if cs.Reverse {
+					n += c16CountOverlapping(c08RevComp(in), ref)
+				}
+				hits += n
+				if n > 0 {
+					hitRef = ref
+				}
+			}
+			// only claimed when the verbatim reference is strictly the longest one: no alignment with a
+			// shorter reference can then out-score the exact copy (every reference scores at most its own
+			// self-alignment; checked for the corpus references under both scoring schemes)
+			longest := true
+			for _, ref := range cs.Orfs {
+				if ref != hitRef && len(ref) >= len(hitRef) {
+					longest = false
+				}
+			}
+			if hits == 1 && longest && strings.Contains(in, hitRef) {
+				want := strings.Index(in, hitRef)
+				if r.Position != want || okStrand != in {
+					viol("verbatim-orf-not-trimmed-at-start", fmt.Sprintf("sequence %d %q embeds reference %q at %d but Position=%d", i, in, hitRef, want, r.Position))
+					return false
+				}
+				if !strings.HasPrefix(r.Codon, hitRef) {
+					viol("verbatim-orf-codons-not-in-frame", fmt.Sprintf("sequence %d %q embeds reference %q verbatim and is trimmed at its start, but CodonSeq is %q (AaSeq %q)", i, in, hitRef, r.Codon, r.Aa))
+					return false
+				}
+				c.Outcome("phase:multiref-verbatim-ok")
+			}
+		}
 		// a sequence containing the supplied reference ORF verbatim exactly once is trimmed at its start
 		if cs.Orf != "" {
 			n := strings.Count(in, cs.Orf)
@@ -370,7 +415,7 @@ func c16Oracle(c *mc.Ctx, cs c16Case, out c16Out, viol func(clause, desc string)
 		}
 		c.Outcome("phase:framed-ok")
 	}
-	c.Nontrivial(fmt.Sprintf("phase|%v|%s|%v|%v|%v|%d", cs.Seqs, cs.Orf, cs.Translate, cs.Reverse, cs.CutEnd, cs.Code))
+	c.Nontrivial(fmt.Sprintf("phase|%v|%s|%v|%v|%v|%v|%d", cs.Seqs, cs.Orf, cs.Orfs, cs.Translate, cs.Reverse, cs.CutEnd, cs.Code))
 	if len(cs.Seqs) > 1 && cs.Reverse {
 		c.Sample(map[string]any{"case": cs, "results": out.res})
 	}
@@ -677,6 +722,38 @@ func c16Tasks(tier string) []mc.Task {
 			}
 		}
 	}})
+	// codon-token strings: every concatenation of up to 7 (thorough 8) tokens from {ATG, TAA, TGA, AAA, C}
+	// (start, two stops, a sense codon, a one-base frame shift): adjacent, nested and
+	// back-to-back frames (a start codon right after the stop of an earlier frame) far beyond
+	// the length reachable by enumerating single bases
+	tokens := []string{"ATG", "TAA", "TGA", "AAA", "C"}
+	maxTok := 7
+	if thorough {
+		maxTok = 8
+	}
+	for _, t0 := range tokens {
+		for _, t1 := range tokens {
+			t0, t1 := t0, t1
+			ts = append(ts, mc.Task{Name: fmt.Sprintf("orf#tokens/%s%s", t0, t1), Run: func(c *mc.Ctx) {
+				c16CheckOrf(c, c16Case{Kind: "orf", Seqs: []string{t0}})
+				c16CheckOrf(c, c16Case{Kind: "orf", Seqs: []string{t0 + t1}})
+				var rec func(prefix string, n int)
+				rec = func(prefix string, n int) {
+					if c.Expired() {
+						return
+					}
+					for _, t := range tokens {
+						s := prefix + t
+						c16CheckOrf(c, c16Case{Kind: "orf", Seqs: []string{s}})
+						if n+1 < maxTok {
+							rec(s, n+1)
+						}
+					}
+				}
+				rec(t0+t1, 2)
+			}})
+		}
+	}
 	// SeqBag.LongestORF on all pairs of sequences of length 6/7
 	bagL := 6
 	if thorough {
@@ -741,6 +818,41 @@ func c16Tasks(tier string) []mc.Task {
 			}})
 		}
 	}
+	// several references: the sequence opens with a 5'-truncated piece of one reference (a weaker hit that
+	// aligns with leading gaps) and contains another reference verbatim further on (the better hit); and,
+	// with the reverse strand allowed, a truncated piece forward and the whole ORF on the reverse strand
+	refA, refB := c16Refs[0], c16Refs[1]
+	ts = append(ts, mc.Task{Name: "phase#multiref", Run: func(c *mc.Ctx) {
+		// (short pair of the corpus, and a longer pair whose truncated pieces score well on their own)
+		const refA2, refB2 = "ATGGCTCGTAACGACTGCCAGGAAGGTCACTAA", "ATGATTCTGAAAATGTTCCCGTCTACCTGGTACGTTGACTAG"
+		for _, pair := range [][2]string{{refA, refB}, {refA2, refB2}} { // the verbatim reference is the longer one
+			weak, strong := pair[0], pair[1]
+			for cut := 1; cut <= 4; cut++ {
+				for _, spacer := range []string{"", "C", "CC", "CCCCC"} {
+					for _, tail := range c16Flank3 {
+						seq := weak[cut:len(weak)-3] + spacer + strong + tail
+						for _, order := range [][]string{{weak, strong}, {strong, weak}} {
+							for _, tr := range []bool{false, true} {
+								for _, rev := range []bool{false, true} {
+									for _, ce := range []bool{false, true} {
+										c16CheckPhase(c, c16Case{Kind: "phase", Seqs: []string{seq}, Orfs: order, Translate: tr, Reverse: rev, CutEnd: ce, Code: align.GENETIC_CODE_STANDARD, Cpus: 1})
+										c16CheckPhase(c, c16Case{Kind: "phase", Seqs: []string{seq, c16NoSim, "CC" + weak}, Orfs: order, Translate: tr, Reverse: rev, CutEnd: ce, Code: align.GENETIC_CODE_STANDARD, Cpus: 1})
+									}
+								}
+							}
+						}
+						// truncated piece forward, whole ORF on the reverse strand
+						seq2 := c08RevComp(tail + c08RevComp(strong[cut:len(strong)-3]+spacer) + strong)
+						for _, tr := range []bool{false, true} {
+							for _, ce := range []bool{false, true} {
+								c16CheckPhase(c, c16Case{Kind: "phase", Seqs: []string{seq2}, Orfs: []string{strong}, Translate: tr, Reverse: true, CutEnd: ce, Code: align.GENETIC_CODE_STANDARD, Cpus: 1})
+							}
+						}
+					}
+				}
+			}
+		}
+	}})
 	return ts
 }
 
@@ -749,7 +861,7 @@ func init() {
 		ID:    "C16",
 		Level: "model_checking",
 		Rule: "schedule part: stateless DFS over all interleavings of the real Phase goroutines (sequence producer, cpus workers, closer, consuming harness thread) with iterative preemption bounds 0..2 (quick) / 0..3 (thorough), 3 sequences x cpus 1..3 x {translate, nt}; error path with an untranslatable sequence in each position; no reference + a sequence without similarity. " +
-			"input part: LongestORF on all sequences of length <=9 (quick) / <=11 (thorough) over {A,T,G,C} plus a family of overlapping-frame sequences (upper/lower case, U) against a brute-force scan; SeqBag.LongestORF on pairs; Phase on ORF copies with 5 five-prime flanks x (exact | 18 single substitutions | reverse complement) x 3 three-prime flanks, alone / with a no-similarity sequence / in a set of 3, x translate x reverse x cut-end x genetic codes x reference supplied or not. " +
+			"input part: LongestORF on all sequences of length <=9 (quick) / <=11 (thorough) over {A,T,G,C} plus a family of overlapping-frame sequences (upper/lower case, U) and every concatenation of up to 7 (thorough 8) codon tokens from {ATG,TAA,TGA,AAA,C} against a brute-force scan; SeqBag.LongestORF on pairs; Phase on ORF copies with 5 five-prime flanks x (exact | 18 single substitutions | reverse complement) x 3 three-prime flanks, alone / with a no-similarity sequence / in a set of 3, x translate x reverse x cut-end x genetic codes x reference supplied or not; two references in both orders against sequences that open with a 5'-truncated piece of one and contain the other verbatim (and truncated piece forward + whole ORF on the reverse strand). " +
 			"distinct_nontrivial counts distinct (case, schedule) executions plus input cases whose result was fully compared.",
 		Assumptions: []string{
 			"results flagged Removed (discarded by the cut-offs) are only counted, their framing is not compared",
